@@ -120,3 +120,18 @@ pub fn x_some_nonempty<'a>(s: &'a str) -> (r: Option<&'a str>)
 pub fn x_concat3(a: &str, sep: char, b: &str) -> (r: String)
     ensures r@ == a@ + seq![sep] + b@
 { let mut r = String::from(a); r.push(sep); r.push_str(b); r }
+
+/// pieces between raw occurrences of `c`
+pub open spec fn split_spec(s: Seq<char>, c: char) -> Seq<Seq<char>> decreases s.len()
+{
+    if first_index_of(s, c) < 0 || first_index_of(s, c) >= s.len() { seq![s] }
+    else { seq![s.subrange(0, first_index_of(s, c))] + split_spec(s.subrange(first_index_of(s, c) + 1, s.len() as int), c) }
+}
+
+
+/// `s.split(c)` for a char pattern, collected (the loop below iterates over the collected pieces)
+#[verifier::external_body]
+pub fn x_split<'a>(s: &'a str, c: char) -> (r: Vec<&'a str>)
+    ensures r@.len() == split_spec(s@, c).len(), forall|i: int| 0 <= i < r@.len() ==> (#[trigger] r@[i])@ == split_spec(s@, c)[i]
+{ s.split(c).collect() }
+
